@@ -25,12 +25,16 @@ type xState struct {
 	fcell map[fieldCell]ssa.Value // last value stored into a field of a local struct variable on this path
 	inst  map[ssa.Value]int       // number of the latest execution of an instance-creating instruction
 	next  int
-	user  map[string]int // rule state (small integers / flags), copied on branching
+	user  map[string]int    // rule state (small integers / flags), copied on branching
+	bval  map[ssa.Value]int // boolean SSA values whose outcome the rule's cond hook decided when they were computed on this path (a flag such as `startNew := bm == nil` keeps that outcome while bm moves on)
 	trail []*ssa.BasicBlock
 }
 
 func (s *xState) clone() *xState {
-	n := &xState{phi: map[*ssa.Phi]ssa.Value{}, cell: map[ssa.Value]ssa.Value{}, fcell: map[fieldCell]ssa.Value{}, inst: map[ssa.Value]int{}, next: s.next, user: map[string]int{}}
+	n := &xState{phi: map[*ssa.Phi]ssa.Value{}, cell: map[ssa.Value]ssa.Value{}, fcell: map[fieldCell]ssa.Value{}, inst: map[ssa.Value]int{}, next: s.next, user: map[string]int{}, bval: map[ssa.Value]int{}}
+	for k, v := range s.bval {
+		n.bval[k] = v
+	}
 	for k, v := range s.fcell {
 		n.fcell[k] = v
 	}
@@ -166,7 +170,36 @@ func (fc *flowCtx) explore(fn *ssa.Function, h xHooks, maxVisits, maxSteps int) 
 				}
 			case *ssa.If:
 				r := -1
-				if h.cond != nil {
+				// a condition that is (a negation of) a boolean decided earlier on this path — directly, through a local
+				// flag variable or a phi of such outcomes and constants
+				{
+					cv, neg := x.Cond, false
+					for k := 0; k < 8; k++ {
+						if u, ok := cv.(*ssa.UnOp); ok && u.Op == token.NOT {
+							cv, neg = u.X, !neg
+							continue
+						}
+						rv := st.resolve(cv)
+						if rv == cv {
+							break
+						}
+						cv = rv
+					}
+					if k, ok := cv.(*ssa.Const); ok {
+						if bv, isBool := constBool(k); isBool {
+							r = 0
+							if bv {
+								r = 1
+							}
+						}
+					} else if bv, ok := st.bval[cv]; ok {
+						r = bv
+					}
+					if r >= 0 && neg {
+						r = 1 - r
+					}
+				}
+				if r < 0 && h.cond != nil {
 					r = h.cond(st, x.Cond)
 				}
 				if r != 0 {
@@ -187,6 +220,14 @@ func (fc *flowCtx) explore(fn *ssa.Function, h xHooks, maxVisits, maxSteps int) 
 			case *ssa.Panic:
 				return
 			}
+			// remember the outcome of a comparison the rule can decide now: its operands may stand for other values later
+			if bo, isCmp := ins.(*ssa.BinOp); isCmp && h.cond != nil && (bo.Op == token.EQL || bo.Op == token.NEQ) {
+				if r := h.cond(st, bo); r >= 0 {
+					st.bval[bo] = r
+				} else {
+					delete(st.bval, bo)
+				}
+			}
 			if h.creates != nil {
 				if v, isNew := h.creates(ins); isNew {
 					st.next++
@@ -201,7 +242,7 @@ func (fc *flowCtx) explore(fn *ssa.Function, h xHooks, maxVisits, maxSteps int) 
 			}
 		}
 	}
-	st := &xState{phi: map[*ssa.Phi]ssa.Value{}, cell: map[ssa.Value]ssa.Value{}, fcell: map[fieldCell]ssa.Value{}, inst: map[ssa.Value]int{}, user: map[string]int{}}
+	st := &xState{phi: map[*ssa.Phi]ssa.Value{}, cell: map[ssa.Value]ssa.Value{}, fcell: map[fieldCell]ssa.Value{}, inst: map[ssa.Value]int{}, user: map[string]int{}, bval: map[ssa.Value]int{}}
 	run(fn.Blocks[0], nil, st, map[*ssa.BasicBlock]int{})
 	return ok
 }
